@@ -137,8 +137,13 @@ def form_case(ctx, form):
     ctx.count(f"impl:{r['class']}/model:{m['outcome']}")
     nontrivial = False
     if r["class"] == "internal":
-        # crash classes belong to C17; the generator avoids the known ones
+        # crash classes belong to C17; the generator avoids the open ones.  A crash on a workbook the
+        # model converts is a C09 failure as well (the select / list is not delivered at all).
         ctx.count("impl-internal:" + r.get("site", "?"))
+        if m["outcome"] == "ok":
+            ctx.mismatch("implementation raises " + r["msg"][:200] + ", model accepts", case, r["msg"][:300], "ok")
+            ctx.fail(Failure("crash-in-fragment", "workbook inside the modelled fragment raises " + r["msg"][:200], case,
+                             extra={"site": r.get("site", "")}))
     if r["ok"]:
         obs = c09obs.observe(r["xform"], r["itemsets"])
         nontrivial = bool(obs["selects"] or obs["instances"])
@@ -151,14 +156,7 @@ def form_case(ctx, form):
         if m["outcome"] == "ok":
             d = diff_obs(canon_obs(obs), canon_obs(m))
             if d:
-                # the model copies the open finding F39; a tree in which F39 is repaired agrees with the
-                # model variant that has the repair (= the spec's label ref) and is not a mismatch
-                m2 = ctx.driver.call("choices.model", f39_fixed=True, **model_input(form))
-                if m2["outcome"] == "ok" and not diff_obs(canon_obs(obs), canon_obs(m2)):
-                    ctx.count("agrees-with-F39-repaired-model")
-                    ctx.notes["F39_repaired_in_tree"] = True
-                else:
-                    ctx.mismatch("observation: " + d[:600], case, "see detail", "see detail")
+                ctx.mismatch("observation: " + d[:600], case, "see detail", "see detail")
         elif m["outcome"] == "error":
             ctx.mismatch("model rejects (" + m["kind"] + "), implementation accepts", case, "ok", m["kind"])
             ctx.fail(Failure("accepted-" + m["kind"], f"workbook the model rejects with {m['kind']} was accepted", case))
@@ -209,6 +207,8 @@ def csv_case(ctx):
             if rng.random() < 0.6:
                 row[h] = "".join(rng.choice(CELL_ATOMS) for _ in range(rng.randint(0, 4)))
         rows.append(row)
+    if rng.random() < 0.2:
+        header = None  # no external_choices_header: first-seen order of the row keys (utils.py fallback)
     case = {"csv": {"header": header, "rows": rows}}
     return csv_check(ctx, case)
 
@@ -221,10 +221,17 @@ def csv_check(ctx, case):
     if not rows:
         ctx.record(case, False)
         return
-    dd = DefinitionData(external_choices=copy.deepcopy(rows), external_choices_header=[{h: None for h in header}])
+    if header is None:
+        dd = DefinitionData(external_choices=copy.deepcopy(rows))
+        dd.external_choices_header = None
+        header = list(dict.fromkeys(k for r in rows for k in r))
+        hdr_arg = None
+    else:
+        dd = DefinitionData(external_choices=copy.deepcopy(rows), external_choices_header=[{h: None for h in header}])
+        hdr_arg = header
     text = external_choices_to_csv(dd, [])
     grid = [list(r) for r in csv.reader(io.StringIO(text, newline=""))]
-    m = ctx.driver.call("choices.csv", header=header, rows=[[[k, v] for k, v in r.items()] for r in rows])
+    m = ctx.driver.call("choices.csv", header=hdr_arg, rows=[[[k, v] for k, v in r.items()] for r in rows])
     if m["text"] != text:
         ctx.mismatch("external_choices_to_csv text", case, text, m["text"])
     if m["grid"] != grid:
@@ -345,49 +352,25 @@ def explore(ctx, factor, bs):
     ctx.notes["fragment_share"] = round(1 - unsup / total, 4) if total else None
 
 
-def _requires_itext(form, ln):
-    """The harness's own reading of Itemset.requires_itext for list `ln`."""
-    import re
-
-    for r in form.get("choices", []):
-        if r.get("list_name", r.get("list name")) != ln:
-            continue
-        for k, v in r.items():
-            if v in (None, ""):
-                continue
-            ck = CHOICE_CANON.get(k, k)
-            if ck.startswith("label::") or ck.startswith("media::"):
-                return True
-            if ck == "label" and re.search(r"\$\{[^}\s]+\}", v):
-                return True
-    return False
+SMART_CHARS = "\u2018\u2019\u201c\u201d"
 
 
-def match_f39(f: Failure) -> bool:
-    """label-ref failure of build_xml on exactly this shape: a select row with randomize=true, no
-    choice_filter, a static list whose labels are in itext; observed `label`, expected the itext ref."""
-    if f.kind != "label-ref" or "build_xml" not in f.extra.get("site", ""):
-        return False
-    if "is 'label' expected 'jr:itext(itextId)'" not in f.detail:
-        return False
+def match_f41(f: Failure) -> bool:
+    """The only deviation from the sheet is the replacement of smart quotes (decided by the Lean oracle, which
+    compares with the quote-normalised sheet) and the sheet in question does contain one."""
     form = f.case.get("form") or {}
-    ref = f.detail.split(" of ", 1)[1].split(" is ", 1)[0]
-    name = ref.rsplit("/", 1)[-1]
-    for row in form.get("survey", []):
-        if row.get("name") != name:
-            continue
-        t = row.get("type", "").split()
-        if row.get("choice_filter") or not row.get("parameters"):
-            return False
-        if parse_params(row["parameters"]).get("randomize") != "true":
-            return False
-        for ln in t[1:]:
-            if _requires_itext(form, ln):
-                return True
-    return False
+    if "clean_text_values" not in f.extra.get("site", ""):
+        return False
+    if f.kind == "csv-smart-quotes":
+        rows = form.get("external_choices") or []
+    elif f.kind == "items-smart-quotes":
+        rows = form.get("choices") or []
+    else:
+        return False
+    return any(isinstance(v, str) and any(ch in v for ch in SMART_CHARS) for r in rows for v in r.values())
 
 
-MATCHERS = {"F39-randomize-itext-label": match_f39}
+MATCHERS = {"F41-smart-quotes-in-choice-cells": match_f41}
 
 
 def replay(ctx, payload, bs):
